@@ -38,7 +38,7 @@ CENSUS = {
     ("2", "type-error:slot?"), ("2", "err:UnexpectedItem@is_empty"),
     ("2", "propagate:<common::RegisteredLabel<T> as common::AsCborValue>::from_cbor_value"),
     ("3", "propagate:<common::RegisteredLabel<T> as common::AsCborValue>::from_cbor_value"),
-    ("3", "err:UnexpectedItem@is_empty"), ("3", "err:UnexpectedItem@ne+trim"), ("3", "err:UnexpectedItem@count+matches"),
+    ("3", "err:UnexpectedItem@is_empty"), ("3", "err:UnexpectedItem@eq+trim"), ("3", "err:UnexpectedItem@count+matches"),
     ("4", "propagate:" + codec.TRY_NONEMPTY), ("5", "propagate:" + codec.TRY_NONEMPTY), ("6", "propagate:" + codec.TRY_NONEMPTY),
     ("7", "err:DecodeFailed@checked_sub"),                        # nesting budget exhausted (C01 repair)
     ("7", "propagate:" + codec.TRY_ARRAY), ("7", "err:UnexpectedItem@is_empty"), ("7", "type-error:slot?"),
@@ -291,6 +291,9 @@ def _classify_sig_alternative(md, s):
     return None
 
 
+from lib.codec import built_local as _built_local
+
+
 def _countersig(prog, md, effs):
     """label 7: a single COSE_Signature (element 0 of the entry's array is a bstr) or an array of them (element 0 is an array).
     Decided on the sequence value of every alternative the arm stores - two pushes, push + loop of pushes, push + extend(collect),
@@ -303,8 +306,17 @@ def _countersig(prog, md, effs):
         st = fn.blocks[e["bb"]]["stmts"][e["idx"]]
         if st["rv"]["k"] != "use":
             return False, {"problem": "assigned value is not a plain value"}
-        for term, dbb in codec.arms(pv, st["rv"]["op"], e["bb"], e["idx"]):
-            alts.append((normalize(Seq(fn, pv).of_value(term, 0, (dbb, "term"))), dbb))
+        arms_ = codec.arms(pv, st["rv"]["op"], e["bb"], e["idx"])
+        built = _built_local(fn, pv, st["rv"]["op"], e["bb"], e["idx"]) if len(arms_) == 1 else None
+        if built is not None:
+            # the value is a list built in a local by an (inlined) helper and handed back: its pushes / extends are the
+            # alternatives, exactly as if they were made on the field itself
+            for e2 in pv.effects():
+                if e2["kind"] == "call" and e2["place"][0] == "local" and e2["place"][1] == built:
+                    alts.append((Seq(fn, pv).contribution([e2], md.next_bb), e2["bb"]))
+        else:
+            for term, dbb in arms_:
+                alts.append((normalize(Seq(fn, pv).of_value(term, 0, (dbb, "term"))), dbb))
     else:
         for f, e in effs:
             if e["kind"] != "call":
